@@ -37,8 +37,8 @@ static const int triples_q[][3] = { { 1, 16, 17 }, { 0, 33, 255 }, { 15, 31, 32 
 static const int triples_t[][3] = { { 1, 16, 17 }, { 0, 33, 255 }, { 15, 31, 32 }, { 256, 1, 16385 }, { 12, 28, 300 }, { 16383, 16384, 40000 }, { 16384, 0, 1 }, { 17, 17, 17 } };
 static const int triples_d[][3] = { { 1, 16, 17 }, { 0, 33, 255 }, { 15, 31, 32 }, { 256, 1, 1000 }, { 12, 28, 300 } };
 
-enum { E_FLIP = 0, E_TRUNC, E_EXTEND, E_TYPE, E_VER, E_LEN, E_SWAP, E_DROP, E_DUP, E_INSERT, E_REFLECT, E_SPLICE, E_NONE, E_PADSPLICE, E_NK };
-static const char *ename[] = { "bitflip", "truncate", "extend", "type", "version", "length", "swap", "drop", "dup", "insert-replay", "reflect", "splice", "none", "cbc-padding-rewrite" };
+enum { E_FLIP = 0, E_TRUNC, E_EXTEND, E_TYPE, E_VER, E_LEN, E_SWAP, E_DROP, E_DUP, E_INSERT, E_REFLECT, E_SPLICE, E_NONE, E_PADSPLICE, E_RESEQ, E_NK };
+static const char *ename[] = { "bitflip", "truncate", "extend", "type", "version", "length", "swap", "drop", "dup", "insert-replay", "reflect", "splice", "none", "cbc-padding-rewrite", "replay-with-rewritten-header-sequence" };
 static int cbc_mac_len(const char *prot)
 {
     if (strncmp(prot, "cbc", 3)) return 0;
@@ -182,6 +182,19 @@ static void build_edits(gctx_t *g)
     {
         add_edit(g, E_REFLECT, 0, j, 0, 0);
     }
+    /* DTLS: a recorded datagram sent again with the epoch / sequence number of its HEADER rewritten to values the
+     * anti-replay window has not seen (the payload, explicit nonce and MAC / tag untouched): the header is authenticated,
+     * so every such copy must be discarded */
+    if (g->dtls)
+    {
+        for (i = 0; i < n; i++)
+        {
+            for (k = 0; k < 6; k++)
+            {
+                add_edit(g, E_RESEQ, i, 0, k, 0);
+            }
+        }
+    }
     /* CBC (MAC-then-encrypt, explicit IV): a record whose plaintext + MAC ends on a block boundary ends in a full padding
      * block of KNOWN plaintext (16 x 0x0f).  Without any key the attacker can rewrite the padding to every longer legal
      * length T = 31, 47, ..., 255: (T+1)/16 - 2 arbitrary blocks and the block X = C[n-1] xor 0x0f.. xor TT.. are inserted
@@ -300,6 +313,28 @@ static int apply_edit(gctx_t *g, const edit_t *e, unit_t *u, int *first_mod)
             if (i < N) COPY(i, 0);
         }
         *first_mod = e->j;
+        break;
+    case E_RESEQ:
+        for (i = 0; i < N; i++) COPY(i, 0);
+        COPY(e->i, 1);
+        {
+            unit_t *x = &u[n - 1];
+            uint64_t sq = 0;
+            int q, ep = (x->p[3] << 8) | x->p[4];
+            for (q = 0; q < 6; q++) sq = (sq << 8) | x->p[5 + q];
+            switch (e->a)
+            {
+            case 0: sq += 64; break;
+            case 1: sq += 1000; break;
+            case 2: sq = 0xffffffffffffULL; break;
+            case 3: sq += 3; break;
+            case 4: ep += 1; break;
+            default: ep = 0; break;
+            }
+            x->p[3] = (unsigned char) (ep >> 8); x->p[4] = (unsigned char) ep;
+            for (q = 0; q < 6; q++) x->p[5 + q] = (unsigned char) (sq >> (8 * (5 - q)));
+        }
+        *first_mod = N;
         break;
     case E_PADSPLICE:
         for (i = 0; i < N; i++)
@@ -541,6 +576,13 @@ static void run_case(void *ctx, mx_result_t *r)
             {
                 sym = "datagram-not-sent-or-delivered-twice";
             }
+        }
+        /* the only copy of datagram i was modified in flight (header or body): it must have been discarded */
+        if (!sym && g->nrec == 3 && (e->kind == E_FLIP || e->kind == E_TYPE || e->kind == E_VER || e->kind == E_LEN || e->kind == E_TRUNC || e->kind == E_SPLICE ||
+                (e->kind == E_EXTEND && e->b)) && e->i < 3 && used[e->i] &&
+            !(g->lens[0] == g->lens[1] && g->msg_hash[0] == g->msg_hash[1]) && !(g->lens[1] == g->lens[2] && g->msg_hash[1] == g->msg_hash[2]))
+        {
+            sym = "modified-datagram-accepted";
         }
     }
     else
